@@ -223,6 +223,7 @@ def dm15_layout(ctx, rule="R-LAYOUT"):
             if k in env and k not in ext:
                 ext[k] = env[k]
     need = {"seed", "status", "error", "edcp", "length"}
+    ext.setdefault("length", ("sub", ("p", "data"), ("c", 0)))
     if not need <= set(ext):
         ctx.unknown(rule, "client DM15 fields not found: %s" % sorted(need - set(ext)))
         return
@@ -421,13 +422,25 @@ def chunk_slice(ctx, rule="R-CHUNK-SLICE"):
                 if it is None or lo is None or hi is None:
                     pr.append("slice is %s" % pretty(a[2]))
                 else:
-                    if not affine_eq(lo, mk_bin("*", it, k)):
-                        pr.append("slice starts at %s, expected object size * index" % pretty(lo))
+                    rng = it[1]
+                    nwhole = mk_bin("//", lensym(raw), k)
                     d = affine_diff(hi, lo)
                     if d is None or d != ({k: 1}, 0):
                         pr.append("slice ends at %s: chunk length is not the object size" % pretty(hi))
-                    if it[1] != ("call", ("glob", "range"), (mk_bin("//", lensym(raw), k),), ()):
-                        pr.append("loop count is %s" % pretty(it[1]))
+                    if rng[0] == "call" and rng[1] == ("glob", "range") and len(rng[2]) == 1:
+                        # index loop: start = k * i, i in range(len // k)
+                        if not affine_eq(lo, mk_bin("*", it, k)):
+                            pr.append("slice starts at %s, expected object size * index" % pretty(lo))
+                        if rng[2][0] != nwhole:
+                            pr.append("loop count is %s" % pretty(rng))
+                    elif rng[0] == "call" and rng[1] == ("glob", "range") and len(rng[2]) == 3:
+                        # position loop: start in range(0, (len // k) * k, k)
+                        if lo != it:
+                            pr.append("slice starts at %s, expected the loop position" % pretty(lo))
+                        if rng[2][0] != ("c", 0) or rng[2][2] != k or not affine_eq(rng[2][1], mk_bin("*", nwhole, k)):
+                            pr.append("positions are %s, expected range(0, (len // size) * size, size)" % pretty(rng))
+                    else:
+                        pr.append("loop is over %s" % pretty(rng))
                 order = kw.get("byteorder", e.value[2][1] if len(e.value[2]) > 1 else None)
                 if order != ("c", "little"):
                     pr.append("byte order %s" % pretty(order))
@@ -624,17 +637,20 @@ def err_xlate(ctx, rule="R-ERR-XLATE"):
         n += 1
         puts = [e for _, e in r.effects() if e.kind == "call" and e.value[1] == ("attr", field("data_queue"), "put")]
         exc = [e for _, e in r.effects() if e.kind == "call" and e.value[1] == ("attr", field("exception_queue"), "put")]
-        edcp_lit = [(x, pol) for x, pol in gl if x[0] == "cmp" and x[1] == "==" and (("c", 6) in (x[2], x[3]) or ("c", 7) in (x[2], x[3]))]
-        marked = any(pol for _, pol in edcp_lit)
         edv = r.evalr.env.get("edcp")
-        for gg, pol in r.guards():
-            if edv is not None and contains(gg, edv) and any(x[0] == "cmp" and edv in (x[2], x[3]) for x in walk(gg)):
-                wantm = mk_bool("or", [mk_cmp("==", edv, ("c", 6)), mk_cmp("==", edv, ("c", 7))])
-                marked = pol
-                okm, cexm = G.equivalent(gg, wantm)
-                if not okm:
-                    ctx.violated(rule, p, "error indicator present <=> EDCP extension is 6 or 7",
-                                 "the test for a present error indicator is %s; counterexample %s" % (pretty(gg)[:80], cexm), p.node, witness=cexm)
+        if edv is None:
+            cands = [y for x, _ in gl if x[0] == "cmp" and x[1] == "==" and (("c", 6) in (x[2], x[3]) or ("c", 7) in (x[2], x[3])) for y in (x[2], x[3]) if not is_const(y)]
+            edv = cands[0] if cands else None
+        marked = bool(exc)
+        if edv is not None:
+            wantm = mk_bool("or", [mk_cmp("==", edv, ("c", 6)), mk_cmp("==", edv, ("c", 7))])
+            Fe = G.conj([(gg, pol) for gg, pol in r.guards() if contains(gg, edv) and any(x[0] == "cmp" and edv in (x[2], x[3]) for x in walk(gg))])
+            okm, cexm = G.implies(Fe, wantm if marked else mk_not(wantm))
+            if not okm:
+                ctx.violated(rule, p, "error indicator present <=> EDCP extension is 6 or 7",
+                             "an error response with EDCP extension %s %s an exception; counterexample %s" % (
+                                 "outside {6, 7}" if marked else "6 or 7", "queues" if marked else "does not queue", cexm), p.node, witness=cexm)
+                continue
         known = any(pol for x, pol in gl if x[0] == "cmp" and x[1] == "in")
         inst = "error DM15 (busy/failed%s): waiter woken%s" % (
             "" if not marked else ", known code" if known else ", unknown code", ", exception naming the error code queued" if marked else "")
